@@ -21,6 +21,9 @@ type vxSym struct {
 	DtMs  int `json:"dtMs"`
 	// CurveErr: the curve evaluation fails in this cycle (e.g. the sensor read of a PID curve failed)
 	CurveErr bool `json:"curveErr,omitempty"`
+	// EnFault: what the pwm_enable file does during this cycle: "" works; "refused" = every write fails with EPERM;
+	// "stuck" = the firmware holds the mode at 2 (writes are accepted and ignored)
+	EnFault string `json:"enFault,omitempty"`
 }
 
 type vxCycCase struct {
@@ -57,8 +60,24 @@ func (fx *vxFix) vxCycle(s vxSym) vxCycObs {
 		if s.CurveErr {
 			fx.curve.Err = errors.New("vx: sensor read failed")
 		}
+		if s.EnFault != "" && fx.dev.Enable != "" && fx.fs.F(fx.dev.Enable) != nil {
+			if s.EnFault == "stuck" {
+				fx.fs.F(fx.dev.Enable).Val = 2
+			}
+			en := fx.dev.Enable
+			fx.fs.Intercept = func(kind, path string, value int) *env.Result {
+				if path == en && kind != "read" {
+					if s.EnFault == "refused" {
+						return &env.Result{Err: env.ErrPerm(path)}
+					}
+					return &env.Result{}
+				}
+				return nil
+			}
+		}
 		n := len(fx.fs.Log)
 		o.Err = fx.ctl.UpdateFanSpeed()
+		fx.fs.Intercept = nil
 		fx.curve.Err = nil
 		for _, op := range fx.fs.Log[n:] {
 			if op.Path == fx.dev.Pwm && op.Kind != "read" {
@@ -184,6 +203,14 @@ func vxCycOracle(prop string, fx *vxFix, h *vxHist, s vxSym, o vxCycObs) [][2]st
 		if o.Req < floor {
 			add("C02 request-below-floor", fmt.Sprintf("request %d below floor %d (initial minimum %d + %d raises); fan now reports min %d, offset %d", o.Req, floor, h.M0, o.Raises, o.FanMin, o.Offset))
 		}
+		if lo := fx.vxLowestWriteFor(floor); len(o.Writes) > 0 {
+			for _, w := range o.Writes {
+				if w < lo {
+					add("C02 value-below-minimum-written", fmt.Sprintf("wrote %d to the fan; the lowest value any request >= floor %d (initial minimum %d + %d raises) maps to is %d (writes of this cycle: %v, pwm_enable fault %q)", w, floor, h.M0, o.Raises, lo, o.Writes, s.EnFault))
+					break
+				}
+			}
+		}
 		if o.Raises > h.PrevR && h.HaveReq && o.Req <= h.PrevReq {
 			add("C02 raise-not-above-stalled-request", fmt.Sprintf("raise issued request %d, stalled request was %d", o.Req, h.PrevReq))
 		}
@@ -191,10 +218,39 @@ func vxCycOracle(prop string, fx *vxFix, h *vxHist, s vxSym, o vxCycObs) [][2]st
 	return v
 }
 
+// vxLowestWriteFor: the smallest value the PWM map yields for any request in [floor, 255] (reference nearest-key rule).
+func (fx *vxFix) vxLowestWriteFor(floor int) int {
+	if fx.lowest == nil {
+		fx.lowest = map[int]int{}
+	}
+	if v, ok := fx.lowest[floor]; ok {
+		return v
+	}
+	lo := 1 << 30
+	for r := floor; r <= 255 || r == floor; r++ {
+		for _, k := range vxRefNearest(fx.pmap, r) {
+			if fx.pmap[k] < lo {
+				lo = fx.pmap[k]
+			}
+		}
+	}
+	fx.lowest[floor] = lo
+	return lo
+}
+
+// vxM0: the minimum the property speaks about, derived from the configuration and not from what the fan object reports:
+// the configured minPwm when there is one, else the fan's measured/default minimum.
+func vxM0(fx *vxFix) int {
+	if fx.cfg.Min >= 0 {
+		return fx.cfg.Min
+	}
+	return fx.fan.GetMinPwm()
+}
+
 // vxRunCyc replays syms on fresh objects (from scratch); oracle violations of the LAST step are returned.
 func vxRunCyc(prop string, cfg vxCfg, syms []vxSym) (key string, viol []mc.Violation, obs []vxCycObs) {
 	fx := vxNewFix(cfg)
-	h := &vxHist{M0: fx.fan.GetMinPwm(), PrevMin: fx.fan.GetMinPwm()}
+	h := &vxHist{M0: vxM0(fx), PrevMin: fx.fan.GetMinPwm()}
 	for i, s := range syms {
 		if h.Terminal {
 			break
@@ -218,6 +274,9 @@ func vxRLE(syms []vxSym) string {
 		e := ""
 		if syms[i].CurveErr {
 			e = ",curve-error"
+		}
+		if syms[i].EnFault != "" {
+			e += ",pwm_enable-" + syms[i].EnFault
 		}
 		fmt.Fprintf(&b, "(%d,%d,%d%s)x%d ", syms[i].Curve, syms[i].Rpm, syms[i].DtMs, e, j-i)
 		i = j
@@ -321,13 +380,17 @@ func vxCycAlphabet(prop string, cfg vxCfg) []vxSym {
 	}
 	// a cycle in which the curve cannot be evaluated
 	a = append(a, vxSym{Curve: 128, Rpm: 1000, DtMs: 200, CurveErr: true})
+	// cycles in which the control mode cannot be set (both attempts of trySetManualPwm fail)
+	if cfg.Kind == "hwmon" && !cfg.NoEnable {
+		a = append(a, vxSym{Curve: 0, Rpm: 1000, DtMs: 200, EnFault: "refused"}, vxSym{Curve: 128, Rpm: 1000, DtMs: 200, EnFault: "stuck"})
+	}
 	return a
 }
 
 func vxCycConfigs(prop string) []vxCfg {
 	var out []vxCfg
 	limits := [][2]int{{-1, -1}, {0, 255}, {0, 100}, {50, 255}, {50, 100}, {100, 100}, {0, 0}, {255, 255}, {250, 255}}
-	maps := []string{"identity", "readme", "quant5", "three", "compress"}
+	maps := []string{"identity", "readme", "quant5", "three", "compress", "splateau"}
 	// PID: default, single-term, huge derivative, negative, and extreme finite gains of opposite sign (P*err = +Inf, I*integral = -Inf -> NaN)
 	algos := []string{"direct", "direct:1", "direct:10", "direct:255", "pid", "pid:1,0,0", "pid:0,0,1e6", "pid:-0.3,-0.02,0", "pid:1.7e308,-1.7e308,0", "pid:1e308,1e308,1e308"}
 	nstops := []bool{false, true}
@@ -349,6 +412,8 @@ func vxCycConfigs(prop string) []vxCfg {
 			for _, a := range algos {
 				out = append(out, vxCfg{Kind: "hwmon", NeverStop: ns, Min: -1, Max: -1, Measured: true, MeasStart: 30, MeasMax: 200, Map: m, Algo: a, StartPwm: 77, StartMode: 2})
 				out = append(out, vxCfg{Kind: "hwmon", NeverStop: ns, Min: -1, Max: 120, Measured: true, MeasStart: 45, MeasMax: 250, Map: m, Algo: a, StartPwm: 0, StartMode: 1})
+				// configured minimum ABOVE the measured start PWM ("suspicious" but legal): the configured value is the minimum
+				out = append(out, vxCfg{Kind: "hwmon", NeverStop: ns, Min: 80, Max: -1, Measured: true, MeasStart: 30, MeasMax: 200, Map: m, Algo: a, StartPwm: 35, StartMode: 2})
 			}
 		}
 		// file fans (limits not configurable); with and without rpm file
@@ -429,7 +494,7 @@ func vxCycTest(t *testing.T, prop string) {
 			model := mc.Model[*vxSnap]{
 				NSym: len(alpha),
 				Init: func() (*vxSnap, string) {
-					h := vxHist{M0: fx.fan.GetMinPwm(), PrevMin: fx.fan.GetMinPwm()}
+					h := vxHist{M0: vxM0(fx), PrevMin: fx.fan.GetMinPwm()}
 					return &vxSnap{Ctl: fx.ctl, Files: fx.vxSaveFiles(), Hist: h}, vxKeyOf(prop, fx, &h)
 				},
 				Clone: func(s *vxSnap) *vxSnap {
